@@ -54,9 +54,49 @@ def safe_span(strand, r1, r2):
     return r2[0], r1[1]
 
 
-def expectations(refseq, strand, taps_strand, unsafe, r1, r2, covered, observed):
+def molecule_consensus(fragments, strand, unsafe, min_phred=None, oriented=True):
+    """The consensus of a molecule made of several fragments, from the package's definition of it (property C13):
+    every fragment contributes ONE call per position - the base of the higher-quality mate where both mates cover the
+    position; mates of equal quality which disagree, or an N, are no call - and the consensus base is the one called
+    by strictly more fragments than any other base; a tie leaves the position without consensus.
+    With min_phred (option min_phred_score, documented as "do not call methylation for bases with a phred score lower
+    than min_phred_score") bases below that quality are not observations at all.
+    fragments : [(obs1, obs2, span1, span2)], obs = {pos: (base, phred)}, span = (ref_start, ref_end) or None for R2
+    -> {pos: base} (only positions which have a consensus)"""
+    votes = {}
+    for obs1, obs2, r1, r2 in fragments:
+        if r2 is not None and not unsafe and oriented:
+            lo, hi = safe_span(strand, r1, r2)
+        else:
+            lo, hi = None, None
+        for p in set(obs1) | set(obs2 or {}):
+            if lo is not None and not (lo <= p < hi):
+                continue
+            cands = [o[p] for o in (obs1, obs2 or {}) if p in o and (min_phred is None or o[p][1] >= min_phred)]
+            if not cands:
+                continue
+            best = max(q for _, q in cands)
+            bases = {b for b, q in cands if q == best}
+            if len(bases) != 1:
+                continue
+            b = bases.pop()
+            if b not in COMP:
+                continue
+            votes.setdefault(p, {}).setdefault(b, 0)
+            votes[p][b] += 1
+    out = {}
+    for p, v in votes.items():
+        top = max(v.values())
+        winners = [b for b, n in v.items() if n == top]
+        if len(winners) == 1:
+            out[p] = winners[0]
+    return out
+
+
+def expectations(refseq, strand, taps_strand, unsafe, r1, r2, covered, observed, oriented=True):
     """
     r1, r2   : (ref_start, ref_end) of the mates (r2 None for a single-end fragment)
+    oriented : the mates map to opposite strands (False: an improper same-strand pair)
     covered  : set of reference positions aligned to a base of any mate
     observed : {pos: base the molecule shows there}
     -> {pos: verdict} for every covered position; verdict is one of
@@ -66,9 +106,21 @@ def expectations(refseq, strand, taps_strand, unsafe, r1, r2, covered, observed)
     """
     base = expected_reference_base(strand, taps_strand)
     conv = 'T' if base == 'C' else 'A'
-    if r2 is not None and not unsafe:
+    demand = None                   # positions where a call can be demanded (None: everywhere in the region)
+    if r2 is not None and not oriented:
+        # mates on the same strand: "between the 5' ends of the mates" is not defined, so neither the never-outside
+        # clause nor completeness can be judged; whatever IS called still has to be a correct call
+        region = set(covered)
+        may_require = False
+    elif r2 is not None and not unsafe:
         lo, hi = safe_span(strand, r1, r2)
         region = {p for p in covered if lo <= p < hi}
+        may_require = True
+    elif r2 is not None:
+        # a pair with allow_unsafe_base_calls=True: calls outside the safe span are ALLOWED (never demanded)
+        lo, hi = safe_span(strand, r1, r2)
+        region = set(covered)
+        demand = {p for p in covered if lo <= p < hi}
         may_require = True
     else:
         region = set(covered)
@@ -89,10 +141,11 @@ def expectations(refseq, strand, taps_strand, unsafe, r1, r2, covered, observed)
         if letter is None:
             out[p] = ('absent', 'call-with-undetermined-context')
             continue
+        required = complete and may_require and (demand is None or p in demand)
         if obs == conv:
-            out[p] = ('call', letter.upper(), complete and may_require)
+            out[p] = ('call', letter.upper(), required)
         elif obs == base:
-            out[p] = ('call', letter, complete and may_require)
+            out[p] = ('call', letter, required)
         else:
             out[p] = ('lower-or-none', letter)
     return out
